@@ -386,7 +386,7 @@ def r114(eng, rep, xf, parse_sites) -> None:
             if isinstance(n, ast.Call) and isinstance(n.func, ast.Attribute) and n.func.attr == "append" and norm(n.func.value) == "self.msg" and n.args:
                 tup = n.args[0]
             if tup is not None:
-                shp = shape(tup)
+                shp = shape(tup, prog, m)
                 shapes.append((m.qual, shp))
                 rep.check(shp == (3, 2), "R11.4", m.file, m.qual, norm(tup), "error entries are (msg, node, (file, line))",
                           "error entry does not have the (msg, node, (file, line)) shape the renderer unpacks")
@@ -570,8 +570,17 @@ def r114(eng, rep, xf, parse_sites) -> None:
                     okn = isinstance(node_arg, ast.Call) and cg.site_of.get(id(node_arg)) and any(c.startswith("fcp.parser.Token.") for c in cg.site_of[id(node_arg)].callees)
                     if okn:
                         a0 = node_arg.args[0] if node_arg.args else None
+                        if isinstance(a0, ast.Name):
+                            a0 = resolve_local_expr(f, a0)
                         okm = isinstance(a0, ast.Call) and cg.site_of.get(id(a0)) and any(c in ("fcp.parser._get_meta", "fcp.specs.metadata.MetaData.__init__") for c in cg.site_of[id(a0)].callees)
-                        rep.check(bool(okm), "R11.4", f.file, f.qual, norm(node_arg, 90), "error node carries a MetaData", "error node's meta is not a MetaData built from a parse-tree node or a lark position")
+                        if okm:
+                            rep.ok("R11.4", f.file, f.qual, norm(node_arg, 90), "error node carries a MetaData")
+                        elif isinstance(a0, ast.Attribute) and a0.attr == "meta":
+                            rep.ok("R11.4", f.file, f.qual, norm(node_arg, 90), "error node carries the MetaData the parser stored on a schema node")
+                        elif isinstance(a0, ast.Call):
+                            rep.violation("R11.4", f.file, f.qual, norm(node_arg, 90), "error node's meta is not a MetaData built from a parse-tree node or a lark position")
+                        else:
+                            rep.undecided("R11.4", f.file, f.qual, norm(node_arg, 90), "origin of the error node's meta not recognised")
                     else:
                         rep.undecided("R11.4", f.file, f.qual, norm(node_arg, 90), "error node is not a Token(...) construction")
 
@@ -581,11 +590,29 @@ def resolve_local_expr(f: FuncInfo, e: ast.AST) -> ast.AST:
     return resolve_local(e, Defs(f.node))
 
 
-def shape(t: ast.AST):
-    if isinstance(t, ast.Tuple):
-        last = t.elts[-1] if t.elts else None
-        return (len(t.elts), len(last.elts) if isinstance(last, ast.Tuple) else 0)
-    return (0, 0)
+def shape(t: ast.AST, prog=None, f=None):
+    """(number of components, number of components of the last one) of a tuple literal or of a named-tuple construction"""
+    def parts(e):
+        if isinstance(e, ast.Tuple):
+            return list(e.elts)
+        if isinstance(e, ast.Call) and prog is not None and f is not None:
+            r = prog.resolve_expr_symbol(f.module, f, e.func)
+            if r and r[0] == "class" and r[1] in prog.classes:
+                ci = prog.classes[r[1]]
+                if any(str(b).split(".")[-1] == "NamedTuple" for b in ci.bases) and ci.field_order:
+                    out = [None] * len(ci.field_order)
+                    for i, a in enumerate(e.args[:len(out)]):
+                        out[i] = a
+                    for k in e.keywords:
+                        if k.arg in ci.field_order:
+                            out[ci.field_order.index(k.arg)] = k.value
+                    return out
+        return None
+    ps = parts(t)
+    if ps is None:
+        return (0, 0)
+    lp = parts(ps[-1]) if ps and ps[-1] is not None else None
+    return (len(ps), len(lp) if lp is not None else 0)
 
 
 def r115(eng, rep, xf, UE, UC) -> None:
